@@ -273,7 +273,8 @@ func (tx *Tx) RangeScan(bucket string, start, end []byte) (es Entries, err error
 func (tx *Tx) rangeScanOnDisk(bucket string, start, end []byte) ([]*Entry, error) {
 	var result []*Entry
 
-	bptSparseIdxGroup := tx.db.BPTreeRootIdxes
+	// sort a copy: read-only transactions run concurrently and must not reorder the shared slice
+	bptSparseIdxGroup := append([]*BPTreeRootIdx(nil), tx.db.BPTreeRootIdxes...)
 
 	SortFID(bptSparseIdxGroup, func(p, q *BPTreeRootIdx) bool {
 		return p.fID > q.fID
@@ -304,7 +305,8 @@ func (tx *Tx) prefixScanOnDisk(bucket string, prefix []byte, offsetNum int, limi
 	var result []*Entry
 	var off int
 
-	bptSparseIdxGroup := tx.db.BPTreeRootIdxes
+	// sort a copy: read-only transactions run concurrently and must not reorder the shared slice
+	bptSparseIdxGroup := append([]*BPTreeRootIdx(nil), tx.db.BPTreeRootIdxes...)
 	SortFID(bptSparseIdxGroup, func(p, q *BPTreeRootIdx) bool {
 		return p.fID > q.fID
 	})
@@ -341,7 +343,8 @@ func (tx *Tx) prefixSearchScanOnDisk(bucket string, prefix []byte, reg string, o
 	var result []*Entry
 	var off int
 
-	bptSparseIdxGroup := tx.db.BPTreeRootIdxes
+	// sort a copy: read-only transactions run concurrently and must not reorder the shared slice
+	bptSparseIdxGroup := append([]*BPTreeRootIdx(nil), tx.db.BPTreeRootIdxes...)
 	SortFID(bptSparseIdxGroup, func(p, q *BPTreeRootIdx) bool {
 		return p.fID > q.fID
 	})
